@@ -23,15 +23,18 @@ def r_term_table(ck: Checker) -> None:
         o = op.split(".")[1]
         it = ck.interp(func, Pins.of(vals={f"{t}.ast_type": "ASTType.BinaryOperation", f"{t}.operator_type": op}, facts={f"self._to_sympy_term({t}.left) is None": False, f"self._to_sympy_term({t}.right) is None": False}))
         got = set()
+        want_txt = set()
         for ret, st in it.returns:
-            v = ret.value
+            v = it.expand(ret.value, st) if ret.value is not None else None
             if isinstance(v, ast.Call) and unparse(v.func) == "cast" and len(v.args) == 2:
                 v = v.args[1]
             got.add(unparse(v) if v is not None else "None")
+            if want_bin.get(o) is not None:
+                want_txt.add(it.text(ast.parse(want_bin[o], mode="eval").body, st))  # type: ignore[arg-type]
         if o in ("Division", "Modulo"):
             ck.add(f"binary {o}", True, func, func.node, f"maps to {sorted(got)} (gringo truncates, sympy floors: noted in DESIGN, no simplification survives it; not armed)", "", nontrivial=False)
             continue
-        want = {"None"} if want_bin[o] is None else {want_bin[o]}
+        want = {"None"} if want_bin[o] is None else want_txt
         ck.add(f"binary {o}", got == want, func, func.node, f"maps to {sorted(got)}; integer semantics requires {sorted(want)}", "a wrong arithmetic operator makes every simplification through it wrong")
     want_un = {"Minus": "Number(0) - term", "Absolute": "Abs(term)", "Negation": "None"}
     for op in enum_members("UnaryOperator"):
@@ -55,13 +58,23 @@ def r_term_table(ck: Checker) -> None:
         ck.add(f"constant of type {styp.split('.')[1]}", got == {want}, func, func.node, f"maps to {sorted(got)}; required {want}", "strings and #inf/#sup are not integers: relations over them must not be solved")
     tt = ck.func(f"{G}._to_sympy_term")
     itt2 = ck.interp(tt)
-    divs = [r for r in returns_of(tt) if r.value is not None and any(isinstance(n, ast.BinOp) and isinstance(n.op, (ast.Div, ast.Mod, ast.FloorDiv)) for n in ast.walk(r.value))]
-    ck.need(len(divs) >= 2, "division and modulo are translated")
-    for r in divs:
-        den = next(n.right for n in ast.walk(r.value) if isinstance(n, ast.BinOp) and isinstance(n.op, (ast.Div, ast.Mod, ast.FloorDiv)))  # type: ignore[union-attr]
-        okz = itt2.holds(r, f"{unparse(den)} != 0") or itt2.holds(r, f"not {unparse(den)} == 0")
-        ck.add(f"`{short(unparse(r.value), 40)}`: the divisor is not the constant 0", okz, tt, r, f"`{fmt(r)}` dominated by `{unparse(den)} != 0`: {okz}",
-               "sympy raises ZeroDivisionError for `X \\ 0` while the body is translated, before the try block of execute: optimize aborts (C03)", rule="C14.TABLE.terms.zero")
+    n_div = 0
+    tp = tt.params()[1]
+    for opname in ("Division", "Modulo"):
+        itd = ck.interp(tt, Pins.of(vals={f"{tp}.ast_type": "ASTType.BinaryOperation", f"{tp}.operator_type": f"BinaryOperator.{opname}"}))
+        for r, st in itd.returns:
+            if r.value is None:
+                continue
+            val = itd.expand(r.value, st)
+            bins = [n for n in ast.walk(val) if isinstance(n, ast.BinOp) and isinstance(n.op, (ast.Div, ast.Mod, ast.FloorDiv))]
+            if not bins:
+                continue
+            n_div += 1
+            den = unparse(bins[0].right)
+            okz = any(itd.eval_atom(ast.parse(f"{den} == 0", mode="eval").body, st) is False for _ in (0,)) or any(v is False for k, v in st.facts.items() if k in (f"0 == {den}", f"{den} == 0")) or "0" in st.nvals.get(den, frozenset())
+            ck.add(f"{opname}: the divisor is not the constant 0", okz, tt, r, f"`{short(unparse(val), 60)}` reached only if `{short(den, 40)} != 0`: {okz}",
+                   "sympy raises ZeroDivisionError for `X \\ 0` while the body is translated, before the try block of execute: optimize aborts (C03)", rule="C14.TABLE.terms.zero")
+    ck.need(n_div >= 2, "division and modulo are translated")
     s2a = ck.func(f"{G}.sympy2ast")
     its2 = ck.interp(s2a)
     ints = [c for c in calls_in(s2a, lambda c: isinstance(c.func, ast.Name) and c.func.id == "int" and len(c.args) == 1 and unparse(c.args[0]) == s2a.params()[1])]
@@ -197,12 +210,22 @@ def r_merge(ck: Checker) -> None:
     it = ck.interp(func)
     ups = [c for c in attr_calls(func, "update") if kwarg(c, "terms") is not None]
     tags = [unparse(kwarg(c, "terms")).replace(" ", "") for c in ups]  # type: ignore[arg-type]
-    ok = len(tags) == 2 and re.fullmatch(r"\[\*(\w+)\.terms,agg_ident\(0\)\]", tags[0]) is not None and re.fullmatch(r"\[\*(\w+)\.terms,agg_ident\(index\)\]", tags[1]) is not None
+    m0 = re.fullmatch(r"\[\*(\w+)\.terms,(\w+)\(0\)\]", tags[0]) if len(tags) == 2 else None
+    m1 = re.fullmatch(r"\[\*(\w+)\.terms,(\w+)\((\w+)\)\]", tags[1]) if len(tags) == 2 else None
+    tagger = m0.group(2) if m0 else "agg_ident"
+    lp_t = enclosing_loop(func, ups[1]) if len(ups) == 2 else None
+    while lp_t is not None and not (isinstance(lp_t.iter, ast.Call) and unparse(lp_t.iter.func) == "range"):
+        lp_t = enclosing_loop(func, lp_t)
+    ok = m0 is not None and m1 is not None and m1.group(2) == tagger and lp_t is not None and m1.group(3) == unparse(lp_t.target)
+    tdef = ck.prg.funcs.get(ck.prg.resolve_callee(func, ast.Name(tagger, ast.Load())) or "")
+    if ok and tdef is not None and not isinstance(tdef.node, ast.Lambda):
+        rt = [r for r in find_nodes(tdef.node, lambda n: isinstance(n, ast.Return))]
+        ok = len(rt) == 1 and unparse(rt[0].value).replace(" ", "") == f"Function(LOC,AGG_STR,[SymbolicTerm(LOC,clingo.Number({tdef.params()[0]}))],False)"  # type: ignore[attr-defined]
     ck.add("elements of merged aggregates are tagged with their aggregate's index", ok, func, func.node, f"terms {tags}", "two aggregates may contain equal tuples: without a distinguishing tag the merged set would count them once")
     rest = resolved_calls(ck.prg, func, "clingo.ast.BodyAggregateElement")
     lp_r = enclosing_loop(func, rest[0]) if rest else None
     tgt = [unparse(e) for e in lp_r.target.elts] if lp_r is not None and isinstance(lp_r.target, ast.Tuple) and len(lp_r.target.elts) == 2 else ["?", "?"]
-    ok = len(rest) == 1 and lp_r is not None and unparse(lp_r.iter) == "enumerate(rest)" and unparse(rest[0].args[0]).replace(" ", "") == f"[{tgt[1]},agg_ident(len(aggs)+{tgt[0]})]"
+    ok = len(rest) == 1 and lp_r is not None and unparse(lp_r.iter) == "enumerate(rest)" and unparse(rest[0].args[0]).replace(" ", "") == f"[{tgt[1]},{tagger}(len(aggs)+{tgt[0]})]"
     ck.add("plain summands get tags beyond the aggregates' indices", ok, func, rest[0] if rest else func.node, f"`{fmt(rest[0]) if rest else None}`", "")
     fin = [c for c in attr_calls(func, "update") if kwarg(c, "function") is not None]
     ck.add("a merged aggregate is a #sum", len(fin) == 1 and unparse(kwarg(fin[0], "function")) == "AggregateFunction.Sum", func, func.node, f"`{fmt(fin[0]) if fin else None}`", "")  # type: ignore[arg-type]
